@@ -254,6 +254,11 @@ def parseMapOp? (args : List String) : Option (MapOp DKey DVal DKey) :=
   | ["clone", dst] => do
     let (isMap, i) ← parseReg? dst
     if isMap then pure (.clone_to i) else none
+  -- `dst.clone_from(&self)`: micromap does not override `Clone::clone_from`, so this is std's
+  -- default `*dst = self.clone()` — the same model operation as `clone`
+  | ["clone_from", dst] => do
+    let (isMap, i) ← parseReg? dst
+    if isMap then pure (.clone_to i) else none
   | ["eq", o] => do
     let (isMap, i) ← parseReg? o
     if isMap then pure (.eq i) else none
@@ -297,6 +302,7 @@ def parseSetOp? (args : List String) : Option (SetOp DKey DKey) :=
   | ["into_iter", t, e] => do pure (.into_iter (← parseNat? t) (← parseEnd? e))
   | ["iter", script] => (parseScript? script).map .iter
   | ["clone", dst] => (parseSetReg? dst).map .clone_to
+  | ["clone_from", dst] => (parseSetReg? dst).map .clone_to
   | ["serde", dst] => (parseSetReg? dst).map .serde
   | ["eq", o] => (parseSetReg? o).map .eq
   | ["from_iter", pulls, xs] => do pure (.from_iter (pulls != "0") (← parseKeys? xs))
